@@ -80,6 +80,13 @@ func (o *Oracle) violate(e *Exchange, assertion, detail string, sig ...string) {
 		v.Sig[sig[i]] = sig[i+1]
 	}
 	o.res.Violations = append(o.res.Violations, v)
+	// C14: with a generated document, a wrong admission is also the behavioural witness of a wrong resolution
+	if o.w.Cfg.Doc != nil && (assertion == "C01.A6-some-rule-admits" || (assertion == "C11.A1-login-iff-admitted" && v.Sig["direction"] == "wrongly-admitted")) {
+		w := v
+		w.Assertion = "C14.A2-field-by-field"
+		w.Sig = map[string]string{"field": "behaviour", "shape": "admitted-against-the-document"}
+		o.res.Violations = append(o.res.Violations, w)
+	}
 }
 
 func clip(s string, n int) string {
